@@ -521,7 +521,13 @@ fn gen_tx(rng: &mut Rng, w: &Weights, cfg: &Config, gw: &mut GenWorld, id: u32, 
                             0 => ActOp::BridgeUnlock { bridge, to: rng.below(u64::from(na)) as u8, amt: gen_amt(rng), fee_asset, event },
                             1 => {
                                 let others: Vec<u8> = gw.bridges.iter().filter(|(k, v)| **k != bridge && (v.0 == b_asset || rng.chance(1, 8))).map(|(k, _)| *k).collect();
-                                let to = if others.is_empty() { rng.below(u64::from(na)) as u8 } else { *rng.pick(&others) };
+                                let to = if rng.chance(1, 8) {
+                                    bridge // a bridge transferring to itself
+                                } else if others.is_empty() {
+                                    rng.below(u64::from(na)) as u8
+                                } else {
+                                    *rng.pick(&others)
+                                };
                                 ActOp::BridgeTransfer { bridge, to, amt: gen_amt(rng), fee_asset, event }
                             }
                             _ => ActOp::Ics20Withdrawal { asset: b_asset, amt: gen_amt(rng), channel: rng.below(2) as u8, fee_asset, bridge: Some(bridge), event },
@@ -1029,10 +1035,19 @@ pub(crate) fn generate(profile: &str, tier: &str, seed: u64) -> Scenario {
                 });
             }
         }
+        // an abandoned honest round right at an upgrade activation height (the block of that
+        // height is then executed more than once by the same application instance)
+        let height_guess = ops.iter().filter(|o| matches!(o, Op::Block(_))).count() as u64 + 1;
+        if (cfg.aspen == Some(height_guess) || cfg.blackburn == Some(height_guess)) && rounds.is_empty() && rng.chance(1, 2) {
+            rounds.push(RoundOp { proposer: rng.below(8) as u8, prepare: true, process: 0xff, byz: None });
+        }
+        // after a Byzantine round every node validates the next proposal (state left behind by a
+        // proposal rejected after partial execution must not leak into it)
+        let after_byz = rounds.last().is_some_and(|r| r.byz.is_some());
         rounds.push(RoundOp {
             proposer: rng.below(8) as u8,
             prepare: rounds.is_empty() || rng.chance(3, 4),
-            process: if rng.chance(1, 2) { 0xff } else { rng.range(0, 255) as u8 },
+            process: if after_byz || rng.chance(1, 2) { 0xff } else { rng.range(0, 255) as u8 },
             byz: None,
         });
         let crash = if cfg.faults.crashes && rng.chance(1, 5) {
